@@ -304,6 +304,9 @@ func main() {
 			}
 			inconcl = append(inconcl, fmt.Sprintf("%s: bound reached on %d path(s): %s", hr.h.Name, n, k))
 		}
+		if r.TimedOut {
+			inconcl = append(inconcl, fmt.Sprintf("%s: time budget reached before all paths were explored", hr.h.Name))
+		}
 		if r.PathCapHit {
 			inconcl = append(inconcl, fmt.Sprintf("%s: path cap %d reached", hr.h.Name, hr.h.maxPaths))
 		}
